@@ -1293,7 +1293,10 @@ func (c *Ctx) stringConstsDeep(g *ssa.Function, depth int) map[string]bool {
 }
 
 // underRecover: f defers a closure that calls recover() and stores an error into a named result of f.
-func (k *c19) underRecover(f *ssa.Function) bool {
+func (k *c19) underRecover(f *ssa.Function) bool { return recoverSetsError(f) }
+
+// recoverSetsError: f defers a closure that calls recover() and stores a non-nil error into an error result of f.
+func recoverSetsError(f *ssa.Function) bool {
 	ok := false
 	forEachInstr(f, func(in ssa.Instruction) {
 		d, isD := in.(*ssa.Defer)
